@@ -5,8 +5,6 @@ package authip
 
 import (
 	"path"
-
-	"github.com/cornelk/hashmap"
 )
 
 // VerifParseAuthIp runs the real parseAuthIp on confPath/confName.
@@ -18,5 +16,8 @@ func VerifParseAuthIp(confPath, confName string) error {
 // VerifResetIpMap puts the package-level whitelist back to its zero state.
 func VerifResetIpMap() {
 	IpMap.enable = false
-	IpMap.HashMap = hashmap.HashMap{}
+	// the map grows in a background goroutine that holds a pointer to it: empty it in place
+	for kv := range IpMap.Iter() {
+		IpMap.Del(kv.Key)
+	}
 }
